@@ -319,7 +319,25 @@ class C13(Check):
             case['all_points'] = tier == 'thorough'
             return _sanitize(case)
 
-        return s()
+        @st.composite
+        def abandoned_work(draw):
+            # directed: a one-of candidate is abandoned while nodes its sub-run started are still in flight; one node
+            # is held open for good, so that the run ends (or is cancelled) while it is in flight
+            from verifkit.checks import engine_checks as EC
+
+            case = draw(st.one_of(EC.candidate_lazy_failure_templates(tier), EC.shared_failure_templates(tier),
+                                  EC.shared_between_candidates_templates(tier),
+                                  EC.nested_containment_templates(tier)))
+            ids = [n['id'] for n in case['program']['nodes'] if n['mode'] in ('gated', 'thread', 'process')]
+            if ids and draw(st.booleans()):
+                case['scheds'] = [{'kind': 'delay', 'node': draw(st.sampled_from(ids)), 'after': 10 ** 6}]
+            else:
+                case['scheds'] = [draw(st.sampled_from(case['scheds']))]
+            case['collab'] = draw(collabs())
+            case['all_points'] = tier == 'thorough'
+            return case
+
+        return st.one_of(*([s()] * 5), abandoned_work())
 
     def _one(self, case, comp, refres, cancel_at):
         prog, var = case['program'], case['variant']
